@@ -1,6 +1,6 @@
 """Source of truth for MANIFEST.json (run: python -m vlib.mkmanifest)."""
 
-REPO_FIX_COMMITS = ["04f98b2", "9ce180e", "cfc2ed2", "1d8dc7e", "8ef3efb", "a7c5d9c", "2fb9873", "812fbc2", "343713a", "2036f84", "8402cd8", "1e36e27", "ed92c78", "c0485e3", "a0c4921", "9103dfd", "b4aac6a", "62476ec"]
+REPO_FIX_COMMITS = ["04f98b2", "9ce180e", "cfc2ed2", "1d8dc7e", "8ef3efb", "a7c5d9c", "2fb9873", "812fbc2", "343713a", "2036f84", "8402cd8", "1e36e27", "ed92c78", "c0485e3", "a0c4921", "9103dfd", "b4aac6a", "62476ec", "c69336e"]
 
 CHECKS = {
     "C09": {
@@ -44,6 +44,12 @@ CHECKS = {
         "text": "Real HTTPConnectionPool / HTTPSConnectionPool / ProxyManager objects (forwarding and CONNECT tunnel, null TLS) are driven through scripted faults at connect, TLS, CONNECT, send (head/body) and receive, including injected BaseExceptions; after every response has been disposed the queue must hold exactly maxsize entries with no connection twice, every socket not idle in the pool must be closed, a blocking pool must never have had more than maxsize sockets open, every failure must be a urllib3 exception or the injected interrupt object itself, and a final clean request must succeed.",
         "note": "Trusts vlib/servers.py, vlib/fakenet.py, vlib/nulltls.py. Known finding KF-C01-close (close() on a response that owns its connection loses the slot) is matched by signature (0 < lost slots <= number of such close() calls) and counted.",
         "design_ref": "DESIGN.md section 4, C01",
+    },
+    "C02": {
+        "technique": "schedule exploration with an owned scheduler (real threads, one baton; yield points = every line of the pool's checkout/return/close functions and every operation of the pool queue installed through QueueCls): every schedule with <= 1 preemption (2 on small configs; thorough 2/3, deeper trace set, opcode granularity) + Hypothesis-drawn random schedules, over configs maxsize x block x 2-3 threads x 1-2 requests x optional close() thread x one scripted fault x pool_timeout; oracle: online monitors (exclusive socket use, connection count, deadlock, own tagged body or documented error, ClosedPoolError only with close(), all sockets closed after the pool is dropped)",
+        "text": "Real threads execute HTTPConnectionPool.urlopen / close on the in-memory network while the harness decides every context switch; each explored schedule is checked for two requests touching one socket at once, more than maxsize connections on a blocking pool, a state in which no thread can run, a request that does not receive the body tagged with its own target, internal errors (AttributeError, queue.Full/Empty, EmptyPoolError without exhaustion) and sockets that survive dropping the closed pool.",
+        "note": "Trusts vlib/sched.py, vlib/fakenet.py, vlib/servers.py. Not decided: preemption inside a bytecode or C code, the OS scheduler, true liveness under unfair scheduling. Known finding KF-C02-closewait (a checkout that waits when close() runs is never woken) is matched by signature: the thread parked on a swapped-out queue, or while the pool was legitimately exhausted.",
+        "design_ref": "DESIGN.md section 4, C02",
     },
     "C03": {
         "technique": "Hypothesis-generated histories of 2-4 requests (server framing / keep-alive / stray bytes / surplus body / interim 100 / early EOF / segmentation x caller disposal) + the exhaustive 2-request product, on an in-memory scripted server whose every body is tagged with the request it answers; oracle: ownership of each delivered byte (prefix of a body sent for that very request) and no response from a connection that had bytes or EOF pending when the request arrived",
